@@ -34,12 +34,14 @@ def apply(mut, d):
     return {}
 
 
-def run_checks(d, ids, tier=None):
+def run_checks(d, ids, tier=None, extra_env=None):
     out = {}
     ev = tempfile.mkdtemp(prefix="gcv-ev.", dir="/var/tmp")
     # several cases are replayed in parallel: keep each one's heap exploration to a few worker processes
     env = dict(os.environ, GCV_REPO=d, GCV_EVIDENCE_DIR=ev)
     env.setdefault("GCV_HEAP_JOBS", "3")
+    if extra_env:
+        env.update(extra_env)
     for i in ids:
         cmd = [os.environ.get("GCV_CHECK", "/verif/check"), i] + (["--tier", tier] if tier else [])
         r = subprocess.run(cmd, env=env, capture_output=True, text=True)
